@@ -1,856 +1,13 @@
-(* Proofs/LoopsTie.v — the loop functions GENERATED from /repo/src/buint/*.rs on every run
-   (Generated/Loops.v, by tools/rs2v_loops.py) equal the hand-written model, for every digit width,
-   every digit count and all well-formed operands: with fuel >= N the generated function neither
-   panics nor runs out of fuel and returns exactly what the model function returns. *)
-From Bnum Require Import Base Prim.
-From Bnum.Model Require Import DigitPrims LoopPrims Digit Core Shift AddSub Mul Bits Imp.
-From Bnum.Model Require Div Ops.
-From Bnum.Generated Require Import DigitGen Loops.
-From Bnum.Proofs Require Import DigitTie ImpLemmas.
-
-(* simplify the application of a generated loop body / condition to a state tuple *)
-Ltac body_red := cbv beta iota.
-
-(* ================= (a) src/buint/overflowing.rs ================= *)
-
-Lemma add_loop_scan2 w a b c : add_loop w a b c = scan2 (carrying_add w) a b c.
-Proof.
-  revert b c. induction a as [|x a IH]; intros b c; [reflexivity|].
-  destruct b as [|y b]; [reflexivity|]. cbn [add_loop scan2].
-  destruct (carrying_add w x y c) as [s c1]. cbn [fst snd]. rewrite IH.
-  destruct (scan2 (carrying_add w) a b c1). reflexivity.
-Qed.
-
-Lemma sub_loop_scan2 w a b c : sub_loop w a b c = scan2 (borrowing_sub w) a b c.
-Proof.
-  revert b c. induction a as [|x a IH]; intros b c; [reflexivity|].
-  destruct b as [|y b]; [reflexivity|]. cbn [sub_loop scan2].
-  destruct (borrowing_sub w x y c) as [s c1]. cbn [fst snd]. rewrite IH.
-  destruct (scan2 (borrowing_sub w) a b c1). reflexivity.
-Qed.
-
-Lemma loops_overflowing_add w n a b : 0 < w -> wf w n a -> wf w n b ->
-  forall fuel, (n <= fuel)%nat ->
-  Loops.overflowing_add w (Z.of_nat n) fuel a b = Done (U_overflowing_add w a b).
-Proof.
-  intros Hw [Ha _] [Hb _] fuel Hf. subst n. unfold Loops.overflowing_add. rewrite Nat2Z.id.
-  rewrite (loop_scan2_all (carrying_add w) a b); try first [assumption | apply repeat_length | reflexivity].
-  - cbn [bind]. unfold U_overflowing_add. rewrite add_loop_scan2.
-    destruct (scan2 (carrying_add w) a b false). reflexivity.
-  - intros out c j Hj Hl. body_red. rewrite !arr_get_nat by lia. cbn [bind].
-    rewrite arr_set_nat by lia. reflexivity.
-Qed.
-
-Lemma loops_overflowing_sub w n a b : 0 < w -> wf w n a -> wf w n b ->
-  forall fuel, (n <= fuel)%nat ->
-  Loops.overflowing_sub w (Z.of_nat n) fuel a b = Done (U_overflowing_sub w a b).
-Proof.
-  intros Hw [Ha _] [Hb _] fuel Hf. subst n. unfold Loops.overflowing_sub. rewrite Nat2Z.id.
-  rewrite (loop_scan2_all (borrowing_sub w) a b); try first [assumption | apply repeat_length | reflexivity].
-  - cbn [bind]. unfold U_overflowing_sub. rewrite sub_loop_scan2.
-    destruct (scan2 (borrowing_sub w) a b false). reflexivity.
-  - intros out c j Hj Hl. body_red. rewrite !arr_get_nat by lia. cbn [bind].
-    rewrite arr_set_nat by lia. reflexivity.
-Qed.
-
-(* ================= (b) src/buint/const_trait_fillers.rs ================= *)
-
-Lemma scan2_map2 (h : Z -> Z -> Z) a b :
-  fst (scan2 (fun x y (_ : unit) => (h x y, tt)) a b tt) = map2 h a b.
-Proof.
-  revert b. induction a as [|x a IH]; intros b; [reflexivity|].
-  destruct b as [|y b]; [reflexivity|]. cbn [scan2 map2 fst snd]. rewrite IH. reflexivity.
-Qed.
-
-Lemma loops_bitand w n a b : 0 < w -> wf w n a -> wf w n b ->
-  forall fuel, (n <= fuel)%nat -> Loops.bitand w (Z.of_nat n) fuel a b = Done (bitand a b).
-Proof.
-  intros Hw [Ha _] [Hb _] fuel Hf. subst n. unfold Loops.bitand. rewrite Nat2Z.id.
-  rewrite (loop_map2_all u_and a b); try first [assumption | apply repeat_length | reflexivity].
-  - cbn [bind]. rewrite scan2_map2. reflexivity.
-  - intros out j Hj Hl. body_red. rewrite !arr_get_nat by lia. cbn [bind].
-    rewrite arr_set_nat by lia. reflexivity.
-Qed.
-
-Lemma loops_bitor w n a b : 0 < w -> wf w n a -> wf w n b ->
-  forall fuel, (n <= fuel)%nat -> Loops.bitor w (Z.of_nat n) fuel a b = Done (bitor a b).
-Proof.
-  intros Hw [Ha _] [Hb _] fuel Hf. subst n. unfold Loops.bitor. rewrite Nat2Z.id.
-  rewrite (loop_map2_all u_or a b); try first [assumption | apply repeat_length | reflexivity].
-  - cbn [bind]. rewrite scan2_map2. reflexivity.
-  - intros out j Hj Hl. body_red. rewrite !arr_get_nat by lia. cbn [bind].
-    rewrite arr_set_nat by lia. reflexivity.
-Qed.
-
-Lemma loops_bitxor w n a b : 0 < w -> wf w n a -> wf w n b ->
-  forall fuel, (n <= fuel)%nat -> Loops.bitxor w (Z.of_nat n) fuel a b = Done (bitxor a b).
-Proof.
-  intros Hw [Ha _] [Hb _] fuel Hf. subst n. unfold Loops.bitxor. rewrite Nat2Z.id.
-  rewrite (loop_map2_all u_xor a b); try first [assumption | apply repeat_length | reflexivity].
-  - cbn [bind]. rewrite scan2_map2. reflexivity.
-  - intros out j Hj Hl. body_red. rewrite !arr_get_nat by lia. cbn [bind].
-    rewrite arr_set_nat by lia. reflexivity.
-Qed.
-
-Lemma loops_not w n a : 0 < w -> wf w n a ->
-  forall fuel, (n <= fuel)%nat -> Loops.not_ w (Z.of_nat n) fuel a = Done (bitnot w a).
-Proof.
-  intros Hw [Ha _] fuel Hf. subst n. unfold Loops.not_. rewrite Nat2Z.id.
-  rewrite (loop_map1_all (u_not w) a); try first [assumption | apply repeat_length | reflexivity].
-  intros out j Hj Hl. body_red. rewrite !arr_get_nat by lia. cbn [bind].
-  rewrite arr_set_nat by lia. reflexivity.
-Qed.
-
-Lemma loops_eq w n a b : 0 < w -> wf w n a -> wf w n b ->
-  forall fuel, (n <= fuel)%nat -> Loops.eq_ w (Z.of_nat n) fuel a b = Done (eq_digits a b).
-Proof.
-  intros Hw [Ha _] [Hb _] fuel Hf. unfold Loops.eq_.
-  apply while_count_bind with (n := n) (k := 0%nat)
-    (Inv := fun k i => i = Z.of_nat k /\ (k <= n)%nat /\ eq_digits a b = eq_digits (skipn k a) (skipn k b)).
-  - intros k i (-> & Hk & Heq) Hc. rewrite ltb_of_nat in Hc. apply Nat.ltb_lt in Hc. split; [exact Hc|].
-    rewrite !arr_get_nat by lia. cbn [bind].
-    rewrite Heq. rewrite (skipn_nth_cons a k) by lia. rewrite (skipn_nth_cons b k) by lia. cbn [eq_digits].
-    destruct (nth k a 0 =? nth k b 0); cbn [negb].
-    + split; [lia|]. split; [lia | reflexivity].
-    + reflexivity.
-  - intros k i (-> & Hk & Heq) Hc. rewrite ltb_of_nat in Hc. apply Nat.ltb_ge in Hc.
-    rewrite Heq. rewrite (skipn_all2 a) by lia. reflexivity.
-  - split; [reflexivity|]. split; [lia | reflexivity].
-  - lia.
-Qed.
-
-Lemma ucmp_snoc la lb x y : length la = length lb ->
-  ucmp (la ++ [x]) (lb ++ [y]) = if y <? x then Gt else if x <? y then Lt else ucmp la lb.
-Proof.
-  revert lb. induction la as [|p la IH]; intros lb Hl; destruct lb as [|q lb]; try discriminate.
-  - cbn [app ucmp]. destruct (y <? x); [reflexivity|]. destruct (x <? y); reflexivity.
-  - cbn [app ucmp]. rewrite IH by (cbn [length] in Hl; lia).
-    destruct (y <? x); [reflexivity|]. destruct (x <? y); reflexivity.
-Qed.
-
-Lemma loops_cmp w n a b : 0 < w -> wf w n a -> wf w n b ->
-  forall fuel, (n <= fuel)%nat -> Loops.cmp w (Z.of_nat n) fuel a b = Done (ucmp a b).
-Proof.
-  intros Hw [Ha _] [Hb _] fuel Hf. unfold Loops.cmp.
-  apply while_count_bind with (n := n) (k := 0%nat)
-    (Inv := fun k i => i = Z.of_nat (n - k) /\ (k <= n)%nat /\
-                       ucmp a b = ucmp (firstn (n - k) a) (firstn (n - k) b)).
-  - intros k i (-> & Hk & Heq) Hc. rewrite gtb_of_nat_0 in Hc. apply Nat.ltb_lt in Hc. split; [lia|].
-    change 1 with (Z.of_nat 1). rewrite usub_nat by lia. cbn [bind].
-    rewrite !arr_get_nat by lia. cbn [bind].
-    assert (E : forall l : list Z, (n - k - 1 < length l)%nat ->
-                firstn (n - k) l = firstn (n - k - 1) l ++ [nth (n - k - 1) l 0]).
-    { intros l Hl. replace (n - k)%nat with (S (n - k - 1)) at 1 by lia. apply firstn_S_snoc. exact Hl. }
-    rewrite Heq. rewrite (E a) by lia. rewrite (E b) by lia.
-    rewrite ucmp_snoc by (rewrite !firstn_length; lia).
-    rewrite Z.gtb_ltb.
-    destruct (nth (n - k - 1) b 0 <? nth (n - k - 1) a 0); [reflexivity|].
-    destruct (nth (n - k - 1) a 0 <? nth (n - k - 1) b 0); [reflexivity|].
-    split; [f_equal; lia|]. split; [lia|]. replace (n - S k)%nat with (n - k - 1)%nat by lia. reflexivity.
-  - intros k i (-> & Hk & Heq) Hc. rewrite gtb_of_nat_0 in Hc. apply Nat.ltb_ge in Hc.
-    rewrite Heq. replace (n - k)%nat with 0%nat by lia. reflexivity.
-  - split; [f_equal; lia|]. split; [lia|]. rewrite Nat.sub_0_r. rewrite !firstn_all2 by lia. reflexivity.
-  - lia.
-Qed.
-
-(* ================= (c) src/buint/mul.rs ================= *)
-
-Lemma carrying_mul_ok w a b c d : 0 < w ->
-  digit_ok w (fst (carrying_mul w a b c d)) /\ digit_ok w (snd (carrying_mul w a b c d)).
-Proof.
-  intros Hw. unfold carrying_mul, digit_ok. cbn [fst snd]. pose proof (B_pos w ltac:(lia)).
-  split; apply Z.mod_pos_bound; lia.
-Qed.
-
-(* one row: the state of the inner loop after k iterations, in terms of what mul_row still has to do *)
-Definition mul_inner_inv (w : Z) (n : nat) (b : list Z) (i : nat) (ai : Z) (ov0 : bool) (pre sfx0 : list Z)
-           (k : nat) (s : bool * list Z * Z * Z) : Prop :=
-  let '(ov, out, carry, j) := s in
-  j = Z.of_nat k /\ (k <= n)%nat /\ ov = ov0 /\ length out = n /\ Forall (digit_ok w) out /\ digit_ok w carry /\
-  firstn i out = pre /\
-  mul_row w ai b sfx0 0 =
-  (firstn k (skipn i out) ++ fst (fst (mul_row w ai (skipn k b) (skipn (i + k) out) carry)),
-   snd (fst (mul_row w ai (skipn k b) (skipn (i + k) out) carry)),
-   snd (mul_row w ai (skipn k b) (skipn (i + k) out) carry)).
-
-Definition mul_inner_post (w : Z) (n : nat) (b : list Z) (i : nat) (ai : Z) (ov0 : bool) (pre sfx0 : list Z)
-           (e : loop_exit (bool * list Z * Z * Z) (list Z * bool)) : Prop :=
-  match e with
-  | Exited (ov, out, carry, j) =>
-      length out = n /\ Forall (digit_ok w) out /\ firstn i out = pre /\
-      exists o, mul_row w ai b sfx0 0 = (skipn i out, carry, o) /\ ov = ov0 || o
-  | Returned _ => False
-  end.
-
-Lemma loops_long_mul w n a b : 0 < w -> wf w n a -> wf w n b ->
-  forall fuel, (n <= fuel)%nat -> Loops.long_mul w (Z.of_nat n) fuel a b = Done (long_mul w a b).
-Proof.
-  intros Hw [Ha Fa] [Hb Fb] fuel Hf. unfold Loops.long_mul. rewrite Nat2Z.id.
-  apply while_count_bind with (n := n) (k := 0%nat)
-    (Inv := fun k '(ov, out, carry, i) =>
-       i = Z.of_nat k /\ (k <= n)%nat /\ length out = n /\ Forall (digit_ok w) out /\
-       long_mul w a b = (firstn k out ++ fst (long_mul_loop w (skipn k a) b (skipn k out) ov),
-                         snd (long_mul_loop w (skipn k a) b (skipn k out) ov))).
-  - intros k [[[ov out] carry] i] (-> & Hk & Hlen & Fout & Heq) Hc.
-    rewrite ltb_of_nat in Hc. apply Nat.ltb_lt in Hc. split; [exact Hc|].
-    match goal with |- context [while_loop fuel ?c ?bd ?s0] =>
-      assert (W : exists e, while_loop fuel c bd s0 = Done e /\
-                            mul_inner_post w n b k (nth k a 0) ov (firstn k out) (skipn k out) e)
-    end.
-    { apply (while_count n (mul_inner_inv w n b k (nth k a 0) ov (firstn k out) (skipn k out))) with (k := 0%nat).
-    + (* one inner iteration *)
-      intros j [[[ov' out'] carry'] jz] (-> & Hj & -> & Hlen' & Fout' & Hcar & Hpre & Hrow) Hcj.
-      rewrite ltb_of_nat in Hcj. apply Nat.ltb_lt in Hcj. split; [exact Hcj|].
-      rewrite <- Nat2Z.inj_add, ltb_of_nat.
-      rewrite (skipn_nth_cons b j) in Hrow by lia.
-      destruct (Nat.ltb_spec (k + j) n) as [Hin|Hout].
-      * rewrite !arr_get_nat by lia. cbn [bind].
-        rewrite tie_carrying_mul; try assumption;
-          try (apply Forall_nth_Z; [assumption | lia]).
-        rewrite (skipn_nth_cons out' (k + j)) in Hrow by lia. cbn [mul_row] in Hrow.
-        pose proof (carrying_mul_ok w (nth k a 0) (nth j b 0) carry' (nth (k + j) out' 0) Hw) as [Hp Hc'].
-        destruct (carrying_mul w (nth k a 0) (nth j b 0) carry' (nth (k + j) out' 0)) as [p c1].
-        cbn [fst snd] in Hp, Hc'.
-        rewrite arr_set_nat by lia. cbn [bind].
-        unfold mul_inner_inv.
-        split; [lia|]. split; [lia|]. split; [reflexivity|]. split; [rewrite list_set_length; exact Hlen'|].
-        split; [apply Forall_list_set; assumption|]. split; [exact Hc'|].
-        split; [rewrite firstn_list_set_le by lia; exact Hpre|].
-        rewrite Hrow. rewrite skipn_list_set_ge. rewrite firstn_S_list_set by (rewrite skipn_length; lia).
-        replace (k + S j)%nat with (S (k + j)) by lia. rewrite skipn_list_set_gt by lia.
-        destruct (mul_row w (nth k a 0) (skipn (S j) b) (skipn (S (k + j)) out') c1) as [[r cf] o].
-        cbn [fst snd]. rewrite <- app_assoc. reflexivity.
-      * rewrite (skipn_all2 out' (n := (k + j)%nat)) in Hrow by lia. cbn [mul_row] in Hrow.
-        rewrite arr_get_nat by lia. cbn [bind].
-        destruct (nth k a 0 =? 0) eqn:Ea; cbn [negb andb] in Hrow |- *.
-        -- cbn [bind]. unfold mul_inner_inv.
-           split; [lia|]. split; [lia|]. split; [reflexivity|]. split; [exact Hlen'|].
-           split; [exact Fout'|]. split; [exact Hcar|]. split; [exact Hpre|].
-           rewrite Hrow. rewrite (skipn_all2 out' (n := (k + S j)%nat)) by lia.
-           rewrite !(firstn_all2 (skipn k out')) by (rewrite skipn_length; lia). reflexivity.
-        -- rewrite arr_get_nat by lia. cbn [bind].
-           destruct (nth j b 0 =? 0) eqn:Eb; cbn [negb] in Hrow |- *.
-           ++ unfold mul_inner_inv.
-              split; [lia|]. split; [lia|]. split; [reflexivity|]. split; [exact Hlen'|].
-              split; [exact Fout'|]. split; [exact Hcar|]. split; [exact Hpre|].
-              rewrite Hrow. rewrite (skipn_all2 out' (n := (k + S j)%nat)) by lia.
-              rewrite !(firstn_all2 (skipn k out')) by (rewrite skipn_length; lia). reflexivity.
-           ++ unfold mul_inner_post.
-              split; [exact Hlen'|]. split; [exact Fout'|]. split; [exact Hpre|].
-              exists true. split; [|rewrite orb_true_r; reflexivity].
-              rewrite Hrow. cbn [fst snd]. rewrite app_nil_r.
-              rewrite firstn_all2 by (rewrite skipn_length; lia). reflexivity.
-    + (* inner loop exit: j = n *)
-      intros j [[[ov' out'] carry'] jz] (-> & Hj & -> & Hlen' & Fout' & Hcar & Hpre & Hrow) Hcj.
-      rewrite ltb_of_nat in Hcj. apply Nat.ltb_ge in Hcj. assert (j = n) by lia. subst j.
-      unfold mul_inner_post.
-      split; [exact Hlen'|]. split; [exact Fout'|]. split; [exact Hpre|].
-      exists false. split; [|rewrite orb_false_r; reflexivity].
-      rewrite Hrow. rewrite (skipn_all2 b) by lia. rewrite (skipn_all2 out' (n := (k + n)%nat)) by lia.
-      cbn [mul_row fst snd]. rewrite app_nil_r.
-      rewrite firstn_all2 by (rewrite skipn_length; lia). reflexivity.
-    + (* inner invariant initially *)
-      unfold mul_inner_inv.
-      split; [reflexivity|]. split; [lia|]. split; [reflexivity|]. split; [exact Hlen|].
-      split; [exact Fout|]. split; [unfold digit_ok; pose proof (B_pos w ltac:(lia)); lia|].
-      split; [reflexivity|]. rewrite Nat.add_0_r. cbn [skipn firstn app].
-      destruct (mul_row w (nth k a 0) b (skipn k out) 0) as [[r cf] o]. reflexivity.
-    + lia. }
-    destruct W as (e & He & HQ).
-    (* after the inner loop *)
-      rewrite He. cbn [bind]. destruct e as [[[[ov' out'] carry'] jz]|r]; [|contradiction].
-      destruct HQ as (Hlen' & Fout' & Hpre & o & Hrow & ->).
-      rewrite Heq. rewrite (skipn_nth_cons a k) by lia. cbn [long_mul_loop]. rewrite Hrow.
-      assert (Hs : skipn k out' = nth k out' 0 :: skipn (S k) out') by (apply skipn_nth_cons; lia).
-      rewrite Hs.
-      assert (Hpre' : firstn (S k) out' = firstn k out ++ [nth k out' 0])
-        by (rewrite firstn_S_snoc by lia; rewrite Hpre; reflexivity).
-      destruct (carry' =? 0) eqn:Ec; cbn [negb].
-      * split; [lia|]. split; [lia|]. split; [exact Hlen'|]. split; [exact Fout'|].
-        rewrite Hpre'. rewrite orb_false_r.
-        destruct (long_mul_loop w (skipn (S k) a) b (skipn (S k) out') (ov || o)) as [r o2].
-        cbn [fst snd]. rewrite <- app_assoc. reflexivity.
-      * split; [lia|]. split; [lia|]. split; [exact Hlen'|]. split; [exact Fout'|].
-        rewrite Hpre'. rewrite orb_true_r.
-        destruct (long_mul_loop w (skipn (S k) a) b (skipn (S k) out') true) as [r o2].
-        cbn [fst snd]. rewrite <- app_assoc. reflexivity.
-  - intros k [[[ov out] carry] i] (-> & Hk & Hlen & Fout & Heq) Hc.
-    rewrite ltb_of_nat in Hc. apply Nat.ltb_ge in Hc. assert (k = n) by lia. subst k.
-    rewrite Heq. rewrite (skipn_all2 a) by lia. cbn [long_mul_loop fst snd].
-    rewrite firstn_all2 by lia. rewrite app_nil_r. reflexivity.
-  - split; [reflexivity|]. split; [lia|]. split; [apply repeat_length|].
-    split; [apply Forall_forall; intros x Hx; apply repeat_spec in Hx; subst x; unfold digit_ok;
-            pose proof (B_pos w ltac:(lia)); lia|].
-    unfold long_mul. cbn [skipn firstn app]. rewrite Ha.
-    destruct (long_mul_loop w a b (ZERO n) false). reflexivity.
-  - lia.
-Qed.
-
-(* ================= (d) src/buint/mod.rs: counting loops ================= *)
-
-Lemma count_ones_sum l : count_ones l = sum_stop u_count_ones (fun _ => false) l.
-Proof. induction l as [|d r IH]; cbn [count_ones sum_stop]; [reflexivity | rewrite IH; reflexivity]. Qed.
-Lemma count_zeros_sum w l : count_zeros w l = sum_stop (u_count_zeros w) (fun _ => false) l.
-Proof. induction l as [|d r IH]; cbn [count_zeros sum_stop]; [reflexivity | rewrite IH; reflexivity]. Qed.
-Lemma trailing_zeros_sum w l : trailing_zeros w l = sum_stop (u_trailing_zeros w) (fun d => negb (d =? 0)) l.
-Proof.
-  induction l as [|d r IH]; cbn [trailing_zeros sum_stop]; [reflexivity|].
-  rewrite IH. destruct (d =? 0); reflexivity.
-Qed.
-Lemma leading_zeros_rev_sum w l : leading_zeros_rev w l = sum_stop (u_leading_zeros w) (fun d => negb (d =? 0)) l.
-Proof.
-  induction l as [|d r IH]; cbn [leading_zeros_rev sum_stop]; [reflexivity|].
-  rewrite IH. destruct (d =? 0); reflexivity.
-Qed.
-Lemma trailing_ones_sum w l : trailing_ones w l = sum_stop (u_trailing_ones w) (fun d => negb (d =? u_max w)) l.
-Proof.
-  induction l as [|d r IH]; cbn [trailing_ones sum_stop]; [reflexivity|].
-  rewrite IH. destruct (d =? u_max w); reflexivity.
-Qed.
-Lemma leading_ones_rev_sum w l : leading_ones_rev w l = sum_stop (u_leading_ones w) (fun d => negb (d =? u_max w)) l.
-Proof.
-  induction l as [|d r IH]; cbn [leading_ones_rev sum_stop]; [reflexivity|].
-  rewrite IH. destruct (d =? u_max w); reflexivity.
-Qed.
-
-(* upward counting loop, state (acc, i) *)
-Ltac count_up h stop a :=
-  apply (loop_fold_stop_bind (fun acc j => (acc, Z.of_nat j)) (fun acc j => (acc, Z.of_nat j))
-           (fun d acc => acc + h d) stop a) with (v := fun acc => acc);
-  [ reflexivity | lia
-  | intros acc j Hj; rewrite ltb_of_nat; apply Nat.ltb_lt; lia
-  | intros acc; rewrite ltb_of_nat; apply Nat.ltb_ge; lia
-  | intros acc j Hj; body_red; rewrite arr_get_nat by lia; cbn [bind]; rewrite Nat2Z.inj_succ; reflexivity
-  | intros; reflexivity | intros; reflexivity ].
-
-(* downward counting loop `i = N; while i > 0 { i -= 1; .. }`, state (acc, i) *)
-Ltac count_down h stop a n :=
-  apply (loop_fold_stop_bind (fun acc j => (acc, Z.of_nat (n - j))) (fun acc j => (acc, Z.of_nat (n - S j)))
-           (fun d acc => acc + h d) stop (rev a)) with (v := fun acc => acc);
-  [ rewrite Nat.sub_0_r; reflexivity | rewrite rev_length; lia
-  | intros acc j Hj; rewrite rev_length in Hj; rewrite gtb_of_nat_0; apply Nat.ltb_lt; lia
-  | intros acc; rewrite rev_length; rewrite gtb_of_nat_0; apply Nat.ltb_ge; lia
-  | intros acc j Hj; rewrite rev_length in Hj; body_red;
-    change 1 with (Z.of_nat 1); rewrite usub_nat by lia; cbn [bind];
-    replace (n - j - 1)%nat with (n - S j)%nat by lia;
-    rewrite arr_get_nat by lia; cbn [bind];
-    rewrite rev_nth by lia; replace (length a - S j)%nat with (n - S j)%nat by lia; reflexivity
-  | intros; reflexivity | intros; reflexivity ].
-
-Lemma loops_count_ones w n a : 0 < w -> wf w n a ->
-  forall fuel, (n <= fuel)%nat -> Loops.count_ones w (Z.of_nat n) fuel a = Done (count_ones a).
-Proof.
-  intros Hw [Ha _] fuel Hf. unfold Loops.count_ones.
-  rewrite count_ones_sum, <- (Z.add_0_l (sum_stop _ _ a)), <- fold_stop_sum.
-  count_up u_count_ones (fun _ : Z => false) a.
-Qed.
-
-Lemma loops_count_zeros w n a : 0 < w -> wf w n a ->
-  forall fuel, (n <= fuel)%nat -> Loops.count_zeros w (Z.of_nat n) fuel a = Done (count_zeros w a).
-Proof.
-  intros Hw [Ha _] fuel Hf. unfold Loops.count_zeros.
-  rewrite count_zeros_sum, <- (Z.add_0_l (sum_stop _ _ a)), <- fold_stop_sum.
-  count_up (u_count_zeros w) (fun _ : Z => false) a.
-Qed.
-
-Lemma loops_trailing_zeros w n a : 0 < w -> wf w n a ->
-  forall fuel, (n <= fuel)%nat -> Loops.trailing_zeros w (Z.of_nat n) fuel a = Done (trailing_zeros w a).
-Proof.
-  intros Hw [Ha _] fuel Hf. unfold Loops.trailing_zeros.
-  rewrite trailing_zeros_sum, <- (Z.add_0_l (sum_stop _ _ a)), <- fold_stop_sum.
-  count_up (u_trailing_zeros w) (fun d => negb (d =? 0)) a.
-Qed.
-
-Lemma loops_trailing_ones w n a : 0 < w -> wf w n a ->
-  forall fuel, (n <= fuel)%nat -> Loops.trailing_ones w (Z.of_nat n) fuel a = Done (trailing_ones w a).
-Proof.
-  intros Hw [Ha _] fuel Hf. unfold Loops.trailing_ones.
-  rewrite trailing_ones_sum, <- (Z.add_0_l (sum_stop _ _ a)), <- fold_stop_sum.
-  count_up (u_trailing_ones w) (fun d => negb (d =? u_max w)) a.
-Qed.
-
-Lemma loops_leading_zeros w n a : 0 < w -> wf w n a ->
-  forall fuel, (n <= fuel)%nat -> Loops.leading_zeros w (Z.of_nat n) fuel a = Done (leading_zeros w a).
-Proof.
-  intros Hw [Ha _] fuel Hf. unfold Loops.leading_zeros, leading_zeros.
-  rewrite leading_zeros_rev_sum, <- (Z.add_0_l (sum_stop _ _ (rev a))), <- fold_stop_sum.
-  count_down (u_leading_zeros w) (fun d => negb (d =? 0)) a n.
-Qed.
-
-Lemma loops_leading_ones w n a : 0 < w -> wf w n a ->
-  forall fuel, (n <= fuel)%nat -> Loops.leading_ones w (Z.of_nat n) fuel a = Done (leading_ones w a).
-Proof.
-  intros Hw [Ha _] fuel Hf. unfold Loops.leading_ones, leading_ones.
-  rewrite leading_ones_rev_sum, <- (Z.add_0_l (sum_stop _ _ (rev a))), <- fold_stop_sum.
-  count_down (u_leading_ones w) (fun d => negb (d =? u_max w)) a n.
-Qed.
-
-Lemma loops_is_power_of_two w n a : 0 < w -> wf w n a ->
-  forall fuel, (n <= fuel)%nat -> Loops.is_power_of_two w (Z.of_nat n) fuel a = Done (U_is_power_of_two a).
-Proof.
-  intros Hw [Ha _] fuel Hf. unfold Loops.is_power_of_two.
-  apply while_count_bind with (n := n) (k := 0%nat)
-    (Inv := fun k '(i, ones) => i = Z.of_nat k /\ (k <= n)%nat /\
-                                U_is_power_of_two a = is_power_of_two_loop (skipn k a) ones).
-  - intros k [i ones] (-> & Hk & Heq) Hc. rewrite ltb_of_nat in Hc. apply Nat.ltb_lt in Hc. split; [exact Hc|].
-    rewrite arr_get_nat by lia. cbn [bind].
-    rewrite Heq. rewrite (skipn_nth_cons a k) by lia. cbn [is_power_of_two_loop].
-    rewrite Z.gtb_ltb. destruct (1 <? ones + u_count_ones (nth k a 0)); [reflexivity|].
-    split; [lia|]. split; [lia | reflexivity].
-  - intros k [i ones] (-> & Hk & Heq) Hc. rewrite ltb_of_nat in Hc. apply Nat.ltb_ge in Hc.
-    rewrite Heq. rewrite (skipn_all2 a) by lia. reflexivity.
-  - split; [reflexivity|]. split; [lia | reflexivity].
-  - lia.
-Qed.
-
-Lemma loops_is_zero w n a : 0 < w -> wf w n a ->
-  forall fuel, (n <= fuel)%nat -> Loops.is_zero w (Z.of_nat n) fuel a = Done (is_zero a).
-Proof.
-  intros Hw [Ha _] fuel Hf. unfold Loops.is_zero.
-  apply while_count_bind with (n := n) (k := 0%nat)
-    (Inv := fun k i => i = Z.of_nat k /\ (k <= n)%nat /\ is_zero a = is_zero (skipn k a)).
-  - intros k i (-> & Hk & Heq) Hc. rewrite ltb_of_nat in Hc. apply Nat.ltb_lt in Hc. split; [exact Hc|].
-    rewrite arr_get_nat by lia. cbn [bind].
-    rewrite Heq. rewrite (skipn_nth_cons a k) by lia. cbn [is_zero].
-    destruct (nth k a 0 =? 0); cbn [negb]; [|reflexivity].
-    split; [lia|]. split; [lia | reflexivity].
-  - intros k i (-> & Hk & Heq) Hc. rewrite ltb_of_nat in Hc. apply Nat.ltb_ge in Hc.
-    rewrite Heq. rewrite (skipn_all2 a) by lia. reflexivity.
-  - split; [reflexivity|]. split; [lia | reflexivity].
-  - lia.
-Qed.
-
-Lemma loops_is_one w n a : 0 < w -> wf w n a ->
-  forall fuel, (n <= fuel)%nat -> Loops.is_one w (Z.of_nat n) fuel a = Done (is_one a).
-Proof.
-  intros Hw [Ha _] fuel Hf. unfold Loops.is_one.
-  destruct a as [|d r].
-  { cbn [length] in Ha. subst n. reflexivity. }
-  cbn [length] in Ha. destruct (Z.eqb_spec (Z.of_nat n) 0) as [E|_]; [lia|].
-  change 0 with (Z.of_nat 0) at 1. rewrite arr_get_nat by (cbn [length]; lia). cbn [bind nth is_one].
-  destruct (d =? 1); cbn [negb]; [|reflexivity].
-  apply while_count_bind with (n := n) (k := 1%nat)
-    (Inv := fun k i => i = Z.of_nat k /\ (1 <= k <= n)%nat /\ is_zero r = is_zero (skipn k (d :: r))).
-  - intros k i (-> & Hk & Heq) Hc. rewrite ltb_of_nat in Hc. apply Nat.ltb_lt in Hc. split; [exact Hc|].
-    rewrite arr_get_nat by (cbn [length]; lia). cbn [bind].
-    rewrite Heq. rewrite (skipn_nth_cons (d :: r) k) by (cbn [length]; lia). cbn [is_zero].
-    destruct (nth k (d :: r) 0 =? 0); cbn [negb]; [|reflexivity].
-    split; [lia|]. split; [lia | reflexivity].
-  - intros k i (-> & Hk & Heq) Hc. rewrite ltb_of_nat in Hc. apply Nat.ltb_ge in Hc.
-    rewrite Heq. rewrite (skipn_all2 (d :: r)) by (cbn [length]; lia). reflexivity.
-  - split; [reflexivity|]. split; [lia | reflexivity].
-  - lia.
-Qed.
-
-(* ================= (e) src/buint/mod.rs: shifts, rotations, byte / bit reversal ================= *)
-
-(* the digit width is a power of two: `rhs >> BIT_SHIFT` is rhs / w and `rhs & BITS_MINUS_1` is rhs mod w *)
-Lemma tz_pow2 m : u_trailing_zeros 32 (2 ^ Z.of_nat m) = Z.of_nat m.
-Proof.
-  induction m as [|m IH]; [reflexivity|].
-  rewrite Nat2Z.inj_succ, Z.pow_succ_r by lia.
-  assert (Hp : 0 < 2 ^ Z.of_nat m) by (apply Z.pow_pos_nonneg; lia).
-  destruct (2 ^ Z.of_nat m) as [|p|p] eqn:E; try lia.
-  change (2 * Z.pos p) with (Z.pos p~0). cbn [u_trailing_zeros tz_pos] in *. rewrite IH. lia.
-Qed.
-
-Lemma pow2_split w lg rhs : 0 <= lg -> w = 2 ^ lg -> 0 <= rhs ->
-  ix_shr rhs (digit_BIT_SHIFT w) = rhs / w /\ ix_and rhs (digit_BITS_MINUS_1 w) = rhs mod w.
-Proof.
-  intros Hlg -> Hr. unfold ix_shr, ix_and, digit_BIT_SHIFT, digit_BITS_MINUS_1.
-  rewrite <- (Z2Nat.id lg) at 1 by lia. rewrite tz_pow2, Z2Nat.id by lia.
-  split; [apply Z.shiftr_div_pow2; lia|].
-  replace (2 ^ lg - 1) with (Z.ones lg) by (rewrite Z.ones_equiv; lia). apply Z.land_ones; lia.
-Qed.
-
-Lemma shl_bits_scan1 w bs ds c :
-  shl_bits w bs ds c = fst (scan1 (fun d c => (u_or (u_shl w d bs) c, u_shr d (w - bs))) ds c) /\
-  shl_bits_carry w bs ds c = snd (scan1 (fun d c => (u_or (u_shl w d bs) c, u_shr d (w - bs))) ds c).
-Proof.
-  revert c. induction ds as [|d r IH]; intros c; [split; reflexivity|].
-  cbn [shl_bits shl_bits_carry scan1 fst snd]. destruct (IH (u_shr d (w - bs))) as [-> ->]. split; reflexivity.
-Qed.
-
-Lemma shr_bits_scan1 w bs ds c :
-  shr_bits w bs ds c = fst (scan1 (fun d c => (u_or (u_shr d bs) c, u_shl w d (w - bs))) ds c).
-Proof.
-  revert c. induction ds as [|d r IH]; intros c; [reflexivity|].
-  cbn [shr_bits scan1 fst snd]. rewrite IH. reflexivity.
-Qed.
-
-Lemma loops_unchecked_shl_internal w lg n a rhs : 0 <= lg -> w = 2 ^ lg -> wf w n a ->
-  0 <= rhs < bits w n ->
-  forall fuel, (n <= fuel)%nat ->
-  Loops.unchecked_shl_internal w (Z.of_nat n) fuel a rhs = Done (shl_internal w a rhs).
-Proof.
-  intros Hlg Hwl [Ha _] Hr fuel Hf.
-  assert (Hw : 0 < w) by (subst w; apply Z.pow_pos_nonneg; lia).
-  unfold Loops.unchecked_shl_internal, shl_internal. rewrite Nat2Z.id.
-  destruct (pow2_split w lg rhs Hlg Hwl ltac:(lia)) as [-> ->].
-  unfold bits in Hr.
-  assert (Hq : 0 <= rhs / w < Z.of_nat n) by (split; [apply Z.div_pos; lia | apply Z.div_lt_upper_bound; lia]).
-  pose proof (Z.mod_pos_bound rhs w Hw) as Hm.
-  set (ds := Z.to_nat (rhs / w)). assert (Hds : rhs / w = Z.of_nat ds) by (unfold ds; lia).
-  rewrite Hds. set (bs := rhs mod w) in *. rewrite Ha.
-  set (src := firstn (n - ds) a).
-  assert (Hsrc : length src = (n - ds)%nat) by (unfold src; rewrite firstn_length; lia).
-  destruct (bs =? 0) eqn:Ebs; cbn [negb].
-  - (* digit copy *)
-    rewrite (loop_writes0 (fun out (_ : unit) j => (out, Z.of_nat (ds + j))) (fun j => (ds + j)%nat)
-               (fun j c => (nth j src 0, tt)) _ _ (n - ds) n fuel (ZERO n) tt);
-      try first [reflexivity | apply repeat_length | lia | (rewrite Nat.add_0_r; reflexivity)].
-    + rewrite run_writes_up by (unfold ZERO; rewrite repeat_length; lia). cbn [bind fst snd].
-      rewrite <- Hsrc. rewrite (scan_idx_scan1 (fun x (_ : unit) => (x, tt)) src) by (intros; reflexivity).
-      rewrite (scan1_map (fun x => x)). cbn [fst]. rewrite map_id. rewrite Nat.add_0_r.
-      unfold ZERO. rewrite firstn_repeat, skipn_repeat.
-      replace (Nat.min ds n) with ds by lia. replace (n - (ds + length src))%nat with 0%nat by lia.
-      cbn [repeat]. rewrite app_nil_r.
-      rewrite firstn_all2 by (rewrite app_length, repeat_length; lia). reflexivity.
-    + intros out c j Hj. rewrite ltb_of_nat. apply Nat.ltb_lt. lia.
-    + intros out c. rewrite ltb_of_nat. apply Nat.ltb_ge. lia.
-    + intros out c j Hj Hl. body_red. rewrite usub_nat by lia. cbn [bind].
-      rewrite arr_get_nat by lia. cbn [bind]. rewrite arr_set_nat by lia. cbn [bind fst snd].
-      replace (ds + j - ds)%nat with j by lia. unfold src. rewrite nth_firstn_lt by lia.
-      rewrite Nat.add_succ_r, Nat2Z.inj_succ. reflexivity.
-  - (* digit copy with bit shift *)
-    apply Z.eqb_neq in Ebs. rewrite usub_ok by lia. cbn [bind].
-    rewrite (loop_writes0 (fun out c j => (out, c, Z.of_nat (ds + j))) (fun j => (ds + j)%nat)
-               (fun j c => (u_or (u_shl w (nth j src 0) bs) c, u_shr (nth j src 0) (w - bs)))
-               _ _ (n - ds) n fuel (ZERO n) 0);
-      try first [reflexivity | apply repeat_length | lia | (rewrite Nat.add_0_r; reflexivity)].
-    + rewrite run_writes_up by (unfold ZERO; rewrite repeat_length; lia). cbn [bind fst snd].
-      rewrite <- Hsrc.
-      rewrite (scan_idx_scan1 (fun d c => (u_or (u_shl w d bs) c, u_shr d (w - bs))) src) by (intros; reflexivity).
-      destruct (shl_bits_scan1 w bs src 0) as [<- _]. rewrite Nat.add_0_r.
-      unfold ZERO. rewrite firstn_repeat, skipn_repeat.
-      replace (Nat.min ds n) with ds by lia. replace (n - (ds + length src))%nat with 0%nat by lia.
-      cbn [repeat]. rewrite app_nil_r.
-      assert (Hlen : length (shl_bits w bs src 0) = length src).
-      { destruct (shl_bits_scan1 w bs src 0) as [-> _].
-        rewrite <- (scan_idx_scan1 _ src (fun j c => (u_or (u_shl w (nth j src 0) bs) c, u_shr (nth j src 0) (w - bs))) 0%nat)
-          by (intros; reflexivity).
-        apply scan_idx_length. }
-      rewrite firstn_all2 by (rewrite app_length, repeat_length, Hlen; lia). reflexivity.
-    + intros out c j Hj. rewrite ltb_of_nat. apply Nat.ltb_lt. lia.
-    + intros out c. rewrite ltb_of_nat. apply Nat.ltb_ge. lia.
-    + intros out c j Hj Hl. body_red. rewrite usub_nat by lia. cbn [bind].
-      rewrite arr_get_nat by lia. cbn [bind]. rewrite dshl_ok by lia. cbn [bind].
-      rewrite arr_set_nat by lia. cbn [bind]. rewrite dshr_ok by lia. cbn [bind fst snd].
-      replace (ds + j - ds)%nat with j by lia. unfold src. rewrite nth_firstn_lt by lia.
-      rewrite Nat.add_succ_r, Nat2Z.inj_succ. reflexivity.
-Qed.
-
-Lemma set_nth_list_set f l k : (k < length l)%nat -> set_nth k f l = list_set l k (f (nth k l 0)).
-Proof.
-  intros Hk. unfold set_nth. rewrite list_set_split by exact Hk.
-  rewrite (skipn_nth_cons l k) by exact Hk. reflexivity.
-Qed.
-
-Lemma loops_unchecked_shr_pad_internal w lg n neg a rhs : 0 <= lg -> w = 2 ^ lg -> wf w n a ->
-  0 <= rhs < bits w n ->
-  forall fuel, (n <= fuel)%nat ->
-  Loops.unchecked_shr_pad_internal w (Z.of_nat n) fuel neg a rhs = Done (shr_pad_internal w neg a rhs).
-Proof.
-  intros Hlg Hwl [Ha _] Hr fuel Hf.
-  assert (Hw : 0 < w) by (subst w; apply Z.pow_pos_nonneg; lia).
-  unfold Loops.unchecked_shr_pad_internal, shr_pad_internal. rewrite Nat2Z.id.
-  destruct (pow2_split w lg rhs Hlg Hwl ltac:(lia)) as [-> ->].
-  unfold bits in Hr.
-  assert (Hq : 0 <= rhs / w < Z.of_nat n) by (split; [apply Z.div_pos; lia | apply Z.div_lt_upper_bound; lia]).
-  pose proof (Z.mod_pos_bound rhs w Hw) as Hm.
-  set (ds := Z.to_nat (rhs / w)). assert (Hds : rhs / w = Z.of_nat ds) by (unfold ds; lia).
-  rewrite Hds. set (bs := rhs mod w) in *. rewrite Ha.
-  set (pad := if neg then u_max w else 0).
-  assert (Hout0 : (if neg then UMAX w n else ZERO n) = repeat pad n) by (unfold pad; destruct neg; reflexivity).
-  rewrite Hout0.
-  set (src := skipn ds a).
-  assert (Hsrc : length src = (n - ds)%nat) by (unfold src; rewrite skipn_length; lia).
-  destruct (bs =? 0) eqn:Ebs; cbn [negb].
-  - (* digit copy *)
-    rewrite (loop_writes0 (fun out (_ : unit) j => (out, Z.of_nat (ds + j))) (fun j => (0 + j)%nat)
-               (fun j c => (nth j src 0, tt)) _ _ (n - ds) n fuel (repeat pad n) tt);
-      try first [reflexivity | apply repeat_length | lia | (rewrite Nat.add_0_r; reflexivity)].
-    + rewrite run_writes_up by (rewrite repeat_length; lia). cbn [bind fst snd].
-      rewrite <- Hsrc. rewrite (scan_idx_scan1 (fun x (_ : unit) => (x, tt)) src) by (intros; reflexivity).
-      rewrite (scan1_map (fun x => x)). cbn [fst Nat.add firstn app]. rewrite map_id.
-      rewrite skipn_repeat. replace (n - length src)%nat with ds by lia.
-      rewrite firstn_all2 by (rewrite app_length, repeat_length; lia). reflexivity.
-    + intros out c j Hj. rewrite ltb_of_nat. apply Nat.ltb_lt. lia.
-    + intros out c. rewrite ltb_of_nat. apply Nat.ltb_ge. lia.
-    + intros out c j Hj Hl. body_red. rewrite arr_get_nat by lia. cbn [bind].
-      rewrite usub_nat by lia. cbn [bind]. rewrite arr_set_nat by lia. cbn [bind fst snd Nat.add].
-      replace (ds + j - ds)%nat with j by lia. unfold src. rewrite nth_skipn_add.
-      rewrite Nat.add_succ_r, Nat2Z.inj_succ. reflexivity.
-  - (* with bit shift: from the top digit of the window downwards *)
-    apply Z.eqb_neq in Ebs. rewrite usub_ok by lia. cbn [bind].
-    set (g := fun d c => (u_or (u_shr d bs) c, u_shl w d (w - bs))).
-    rewrite (loop_writes0 (fun out c j => (out, c, Z.of_nat (ds + j))) (fun j => (n - ds - 1 - j)%nat)
-               (fun j c => g (nth j (rev src) 0) c) _ _ (n - ds) n fuel (repeat pad n) 0);
-      try first [reflexivity | apply repeat_length | lia | (rewrite Nat.add_0_r; reflexivity)].
-    + rewrite run_writes_down by (try rewrite repeat_length; lia). cbn [bind fst snd].
-      replace (n - ds - 0 - (n - ds))%nat with 0%nat by lia. rewrite Nat.sub_0_r. cbn [firstn app].
-      rewrite skipn_repeat. replace (n - (n - ds))%nat with ds by lia.
-      assert (Hsc : fst (scan_idx (fun j c => g (nth j (rev src) 0) c) 0 (n - ds) 0) = shr_bits w bs (rev src) 0).
-      { rewrite <- Hsrc, <- rev_length. rewrite (scan_idx_scan1 g (rev src)) by (intros; reflexivity).
-        rewrite shr_bits_scan1. reflexivity. }
-      assert (Hlow : length (rev (shr_bits w bs (rev src) 0)) = (n - ds)%nat).
-      { rewrite <- Hsc. rewrite rev_length. apply scan_idx_length. }
-      rewrite Hsc. set (low := rev (shr_bits w bs (rev src) 0)) in *.
-      destruct neg.
-      * rewrite dshl_ok by lia. cbn [bind]. unfold ix_saturating_sub.
-        destruct (Z.ltb_spec (Z.of_nat n) (Z.of_nat ds)) as [?|_]; [lia|].
-        rewrite usub_ok by lia. cbn [bind].
-        replace (Z.of_nat n - Z.of_nat ds - 1) with (Z.of_nat (n - ds - 1)) by lia.
-        rewrite arr_get_nat by (rewrite app_length, repeat_length; lia). cbn [bind].
-        rewrite arr_set_nat by (rewrite app_length, repeat_length; lia). cbn [bind].
-        rewrite app_nth1 by lia. rewrite list_set_app_l by lia.
-        rewrite set_nth_list_set by lia.
-        rewrite firstn_all2 by (rewrite app_length, list_set_length, repeat_length; lia). reflexivity.
-      * rewrite firstn_all2 by (rewrite app_length, repeat_length; lia). reflexivity.
-    + intros out c j Hj. rewrite ltb_of_nat. apply Nat.ltb_lt. lia.
-    + intros out c. rewrite ltb_of_nat. apply Nat.ltb_ge. lia.
-    + intros out c j Hj Hl. body_red. rewrite (usub_ok (Z.of_nat n) 1) by lia. cbn [bind].
-      rewrite usub_ok by lia. cbn [bind].
-      replace (Z.of_nat n - 1 - Z.of_nat (ds + j)) with (Z.of_nat (n - ds - 1 - j)) by lia.
-      rewrite <- Nat2Z.inj_add. rewrite arr_get_nat by lia. cbn [bind].
-      rewrite dshr_ok by lia. cbn [bind]. rewrite arr_set_nat by lia. cbn [bind].
-      rewrite dshl_ok by lia. cbn [bind].
-      rewrite rev_nth by lia. rewrite Hsrc. unfold src. rewrite !nth_skipn_add.
-      replace (ds + (n - ds - S j))%nat with (n - ds - 1 - j + ds)%nat by lia.
-      unfold g. cbn [fst snd]. rewrite Nat.add_succ_r, Nat2Z.inj_succ. reflexivity.
-Qed.
-
-Lemma loops_rotate_digits_left w n a k : 0 < w -> wf w n a -> (k <= n)%nat ->
-  forall fuel, (n <= fuel)%nat ->
-  Loops.rotate_digits_left w (Z.of_nat n) fuel a (Z.of_nat k) = Done (rotate_digits_left a k).
-Proof.
-  intros Hw [Ha _] Hk fuel Hf. unfold Loops.rotate_digits_left, rotate_digits_left. rewrite Nat2Z.id, Ha.
-  set (lo := firstn (n - k) a). set (hi := skipn (n - k) a).
-  assert (Hlo : length lo = (n - k)%nat) by (unfold lo; rewrite firstn_length; lia).
-  assert (Hhi : length hi = k) by (unfold hi; rewrite skipn_length; lia).
-  (* first loop: out[k..n) := a[0..n-k) *)
-  rewrite (loop_writes0 (fun out (_ : unit) j => (out, Z.of_nat (k + j))) (fun j => (k + j)%nat)
-             (fun j c => (nth j lo 0, tt)) _ _ (n - k) n fuel (ZERO n) tt);
-    try first [reflexivity | apply repeat_length | lia | (rewrite Nat.add_0_r; reflexivity)].
-  - rewrite run_writes_up by (unfold ZERO; rewrite repeat_length; lia). cbn [bind fst snd].
-    rewrite <- Hlo. rewrite (scan_idx_scan1 (fun x (_ : unit) => (x, tt)) lo) by (intros; reflexivity).
-    rewrite (scan1_map (fun x => x)). cbn [fst]. rewrite map_id. rewrite Nat.add_0_r.
-    unfold ZERO. rewrite firstn_repeat, skipn_repeat.
-    replace (Nat.min k n) with k by lia. replace (n - (k + length lo))%nat with 0%nat by lia.
-    cbn [repeat]. rewrite app_nil_r.
-    rewrite usub_nat by lia. cbn [bind].
-    (* second loop: out[0..k) := a[n-k..n) *)
-    rewrite (loop_writes0 (fun out (_ : unit) j => (out, Z.of_nat (n - k + j))) (fun j => (0 + j)%nat)
-               (fun j c => (nth j hi 0, tt)) _ _ k n fuel (repeat 0 k ++ lo) tt);
-      try first [reflexivity | lia | (rewrite Nat.add_0_r; reflexivity) | (rewrite app_length, repeat_length; lia)].
-    + rewrite run_writes_up by (rewrite app_length, repeat_length; lia). cbn [bind fst snd Nat.add firstn app].
-      rewrite <- Hhi at 1. rewrite (scan_idx_scan1 (fun x (_ : unit) => (x, tt)) hi) by (intros; reflexivity).
-      rewrite (scan1_map (fun x => x)). cbn [fst]. rewrite map_id.
-      rewrite skipn_app, repeat_length, Nat.sub_diag. rewrite skipn_all2 by (rewrite repeat_length; lia).
-      reflexivity.
-    + intros out c j Hj. rewrite ltb_of_nat. apply Nat.ltb_lt. lia.
-    + intros out c. rewrite ltb_of_nat. apply Nat.ltb_ge. lia.
-    + intros out c j Hj Hl. body_red. rewrite arr_get_nat by lia. cbn [bind].
-      rewrite usub_nat by lia. cbn [bind]. rewrite arr_set_nat by lia. cbn [bind fst snd Nat.add].
-      replace (n - k + j - (n - k))%nat with j by lia. unfold hi. rewrite nth_skipn_add.
-      rewrite Nat.add_succ_r, Nat2Z.inj_succ. reflexivity.
-  - intros out c j Hj. rewrite ltb_of_nat. apply Nat.ltb_lt. lia.
-  - intros out c. rewrite ltb_of_nat. apply Nat.ltb_ge. lia.
-  - intros out c j Hj Hl. body_red. rewrite usub_nat by lia. cbn [bind].
-    rewrite arr_get_nat by lia. cbn [bind]. rewrite arr_set_nat by lia. cbn [bind fst snd].
-    replace (k + j - k)%nat with j by lia. unfold lo. rewrite nth_firstn_lt by lia.
-    rewrite Nat.add_succ_r, Nat2Z.inj_succ. reflexivity.
-Qed.
-
-Lemma loops_swap_bytes w n a : 0 < w -> wf w n a ->
-  forall fuel, (n <= fuel)%nat -> Loops.swap_bytes w (Z.of_nat n) fuel a = Done (swap_bytes w a).
-Proof.
-  intros Hw [Ha _] fuel Hf. unfold Loops.swap_bytes, swap_bytes. rewrite Nat2Z.id.
-  rewrite <- Ha, <- rev_length.
-  rewrite (loop_map1_all (u_swap_bytes w) (rev a)); try first [apply repeat_length | reflexivity | (rewrite rev_length; lia)].
-  intros out j Hj Hl. rewrite rev_length in *. body_red.
-  rewrite (usub_ok (Z.of_nat (length a)) 1) by lia. cbn [bind]. rewrite usub_ok by lia. cbn [bind].
-  replace (Z.of_nat (length a) - 1 - Z.of_nat j) with (Z.of_nat (length a - S j)) by lia.
-  rewrite arr_get_nat by lia. cbn [bind]. rewrite arr_set_nat by lia. cbn [bind].
-  rewrite rev_nth by lia. reflexivity.
-Qed.
-
-Lemma loops_reverse_bits w n a : 0 < w -> wf w n a ->
-  forall fuel, (n <= fuel)%nat -> Loops.reverse_bits w (Z.of_nat n) fuel a = Done (reverse_bits w a).
-Proof.
-  intros Hw [Ha _] fuel Hf. unfold Loops.reverse_bits, reverse_bits. rewrite Nat2Z.id.
-  rewrite <- Ha, <- rev_length.
-  rewrite (loop_map1_all (u_reverse_bits w) (rev a)); try first [apply repeat_length | reflexivity | (rewrite rev_length; lia)].
-  intros out j Hj Hl. rewrite rev_length in *. body_red.
-  rewrite (usub_ok (Z.of_nat (length a)) 1) by lia. cbn [bind]. rewrite usub_ok by lia. cbn [bind].
-  replace (Z.of_nat (length a) - 1 - Z.of_nat j) with (Z.of_nat (length a - S j)) by lia.
-  rewrite arr_get_nat by lia. cbn [bind]. rewrite arr_set_nat by lia. cbn [bind].
-  rewrite rev_nth by lia. reflexivity.
-Qed.
-
-Lemma loops_unchecked_rotate_left w lg n a rhs : 0 <= lg -> w = 2 ^ lg -> wf w n a ->
-  0 <= rhs <= bits w n ->
-  forall fuel, (n <= fuel)%nat ->
-  Loops.unchecked_rotate_left w (Z.of_nat n) fuel a rhs = Done (unchecked_rotate_left w a rhs).
-Proof.
-  intros Hlg Hwl Hwf Hr fuel Hf. pose proof Hwf as [Ha _].
-  assert (Hw : 0 < w) by (subst w; apply Z.pow_pos_nonneg; lia).
-  unfold Loops.unchecked_rotate_left, unchecked_rotate_left.
-  destruct (pow2_split w lg rhs Hlg Hwl ltac:(lia)) as [-> ->].
-  unfold bits in Hr.
-  assert (Hq : 0 <= rhs / w <= Z.of_nat n).
-  { split; [apply Z.div_pos; lia|]. apply Z.div_le_upper_bound; lia. }
-  pose proof (Z.mod_pos_bound rhs w Hw) as Hm.
-  set (ds := Z.to_nat (rhs / w)). assert (Hds : rhs / w = Z.of_nat ds) by (unfold ds; lia).
-  rewrite Hds. set (bs := rhs mod w) in *.
-  rewrite (loops_rotate_digits_left w n a ds Hw Hwf ltac:(lia) fuel Hf). cbn [bind].
-  set (out0 := rotate_digits_left a ds).
-  assert (Hout0 : length out0 = n).
-  { unfold out0, rotate_digits_left. rewrite app_length, skipn_length, firstn_length. lia. }
-  destruct (bs =? 0) eqn:Ebs; cbn [negb]; [reflexivity|].
-  apply Z.eqb_neq in Ebs. rewrite usub_ok by lia. cbn [bind].
-  assert (Hn : (0 < n)%nat).
-  { destruct n; [|lia]. exfalso. assert (rhs = 0) by lia. subst rhs. unfold bs in Ebs.
-    rewrite Z.mod_0_l in Ebs by lia. lia. }
-  apply while_count_bind with (n := n) (k := 0%nat)
-    (Inv := fun k '(out, carry, i) =>
-       i = Z.of_nat k /\ (k <= n)%nat /\ length out = n /\ skipn k out = skipn k out0 /\
-       shl_bits w bs out0 0 = firstn k out ++ shl_bits w bs (skipn k out0) carry /\
-       shl_bits_carry w bs out0 0 = shl_bits_carry w bs (skipn k out0) carry).
-  - intros k [[out carry] i] (-> & Hk & Hlen & Hsk & Hsb & Hsc) Hc.
-    rewrite ltb_of_nat in Hc. apply Nat.ltb_lt in Hc. split; [exact Hc|].
-    rewrite arr_get_nat by lia. cbn [bind]. rewrite dshl_ok by lia. cbn [bind].
-    rewrite arr_set_nat by lia. cbn [bind]. rewrite dshr_ok by lia. cbn [bind].
-    assert (Hd : nth k out 0 = nth k out0 0).
-    { pose proof (nth_skipn_add out k 0) as H1. pose proof (nth_skipn_add out0 k 0) as H2.
-      rewrite Nat.add_0_r in H1, H2. rewrite <- H1, <- H2, Hsk. reflexivity. }
-    rewrite Hd. rewrite (skipn_nth_cons out0 k) in Hsb, Hsc by lia. cbn [shl_bits shl_bits_carry] in Hsb, Hsc.
-    split; [lia|]. split; [lia|]. split; [rewrite list_set_length; exact Hlen|].
-    split.
-    { rewrite skipn_S_list_set. rewrite !skipn_S_tl, Hsk. reflexivity. }
-    split.
-    { rewrite Hsb. rewrite firstn_S_list_set by lia. rewrite <- app_assoc. reflexivity. }
-    exact Hsc.
-  - intros k [[out carry] i] (-> & Hk & Hlen & Hsk & Hsb & Hsc) Hc.
-    rewrite ltb_of_nat in Hc. apply Nat.ltb_ge in Hc. assert (k = n) by lia. subst k.
-    rewrite (skipn_all2 out0) in Hsb, Hsc by lia. cbn [shl_bits shl_bits_carry] in Hsb, Hsc.
-    rewrite app_nil_r, firstn_all2 in Hsb by lia. rewrite Hsb, Hsc.
-    destruct out as [|d t]; [cbn [length] in Hlen; lia|].
-    change 0 with (Z.of_nat 0) at 1 2. rewrite arr_get_nat by (cbn [length]; lia). cbn [bind].
-    rewrite arr_set_nat by (cbn [length]; lia). reflexivity.
-  - split; [reflexivity|]. split; [lia|]. split; [exact Hout0|]. split; [reflexivity|].
-    split; reflexivity.
-  - lia.
-Qed.
-
-(* ================= (f) src/buint/ops.rs Add<Digit>, src/buint/checked.rs div_rem_digit, last_digit_index ================= *)
-
-Lemma div_rem_wide_ok w lo hi rhs : 0 < w ->
-  digit_ok w (fst (div_rem_wide w lo hi rhs)) /\ digit_ok w (snd (div_rem_wide w lo hi rhs)).
-Proof.
-  intros Hw. unfold div_rem_wide, digit_ok. cbn [fst snd]. pose proof (B_pos w ltac:(lia)).
-  split; apply Z.mod_pos_bound; lia.
-Qed.
-
-(* no hypothesis on rhs is needed for the equality; the call sites pass a non-zero digit
-   (Rust panics on division by zero inside div_rem_wide otherwise) *)
-Lemma loops_div_rem_digit w n a rhs : 0 < w -> wf w n a ->
-  forall fuel, (n <= fuel)%nat ->
-  Loops.div_rem_digit w (Z.of_nat n) fuel a rhs = Done (Div.div_rem_digit w a rhs).
-Proof.
-  intros Hw [Ha Fa] fuel Hf. unfold Loops.div_rem_digit, Div.div_rem_digit. rewrite Nat2Z.id.
-  apply while_count_bind with (n := n) (k := 0%nat)
-    (Inv := fun k '(out, rem, i) =>
-       i = Z.of_nat (n - k) /\ (k <= n)%nat /\ length out = n /\ digit_ok w rem /\
-       Div.div_rem_digit_loop w (rev a) rhs 0 =
-       (rev (skipn (n - k) out) ++ fst (Div.div_rem_digit_loop w (skipn k (rev a)) rhs rem),
-        snd (Div.div_rem_digit_loop w (skipn k (rev a)) rhs rem))).
-  - intros k [[out rem] i] (-> & Hk & Hlen & Hrem & Heq) Hc.
-    rewrite gtb_of_nat_0 in Hc. apply Nat.ltb_lt in Hc. split; [lia|].
-    rewrite (usub_ok (Z.of_nat (n - k)) 1) by lia. cbn [bind].
-    replace (Z.of_nat (n - k) - 1) with (Z.of_nat (n - S k)) by lia.
-    rewrite arr_get_nat by lia. cbn [bind].
-    rewrite tie_div_rem_wide; try assumption; [|apply Forall_nth_Z; [assumption | lia]].
-    rewrite (skipn_nth_cons (rev a) k) in Heq by (rewrite rev_length; lia). cbn [Div.div_rem_digit_loop] in Heq.
-    rewrite rev_nth in Heq by lia. rewrite Ha in Heq.
-    pose proof (div_rem_wide_ok w (nth (n - S k) a 0) rem rhs Hw) as [_ Hr'].
-    destruct (div_rem_wide w (nth (n - S k) a 0) rem rhs) as [q r1]. cbn [fst snd] in Hr'.
-    rewrite arr_set_nat by lia. cbn [bind].
-    split; [reflexivity|]. split; [lia|]. split; [rewrite list_set_length; exact Hlen|]. split; [exact Hr'|].
-    rewrite Heq. rewrite skipn_list_set_same by lia. replace (S (n - S k)) with (n - k)%nat by lia.
-    destruct (Div.div_rem_digit_loop w (skipn (S k) (rev a)) rhs r1) as [qs rf].
-    cbn [fst snd rev]. rewrite <- app_assoc. reflexivity.
-  - intros k [[out rem] i] (-> & Hk & Hlen & Hrem & Heq) Hc.
-    rewrite gtb_of_nat_0 in Hc. apply Nat.ltb_ge in Hc. assert (k = n) by lia. subst k.
-    rewrite Heq. rewrite (skipn_all2 (rev a)) by (rewrite rev_length; lia). cbn [Div.div_rem_digit_loop fst snd].
-    rewrite Nat.sub_diag. cbn [skipn]. rewrite app_nil_r, rev_involutive. reflexivity.
-  - split; [f_equal; lia|]. split; [lia|]. split; [apply repeat_length|].
-    split; [unfold digit_ok; pose proof (B_pos w ltac:(lia)); lia|].
-    rewrite Nat.sub_0_r. rewrite skipn_all2 by (unfold ZERO; rewrite repeat_length; lia).
-    cbn [rev app skipn]. destruct (Div.div_rem_digit_loop w (rev a) rhs 0). reflexivity.
-  - lia.
-Qed.
-
-Lemma loops_last_digit_index w n a : 0 < w -> wf w n a ->
-  forall fuel, (n <= fuel)%nat ->
-  Loops.last_digit_index w (Z.of_nat n) fuel a = Done (Z.of_nat (Div.last_digit_index a)).
-Proof.
-  intros Hw [Ha _] fuel Hf. unfold Loops.last_digit_index.
-  destruct a as [|d r].
-  { cbn [length] in Ha. subst n. destruct fuel; reflexivity. }
-  cbn [length] in Ha. cbn [Div.last_digit_index].
-  apply while_count_bind with (n := n) (k := 1%nat)
-    (Inv := fun k '(index, i) => i = Z.of_nat k /\ (1 <= k <= n)%nat /\ exists ix : nat, index = Z.of_nat ix /\
-       Div.last_digit_index_from 1 r 0 = Div.last_digit_index_from k (skipn k (d :: r)) ix).
-  - intros k [index i] (-> & Hk & ix & -> & Heq) Hc. rewrite ltb_of_nat in Hc. apply Nat.ltb_lt in Hc.
-    split; [exact Hc|]. rewrite arr_get_nat by (cbn [length]; lia). cbn [bind].
-    rewrite (skipn_nth_cons (d :: r) k) in Heq by (cbn [length]; lia). cbn [Div.last_digit_index_from] in Heq.
-    destruct (nth k (d :: r) 0 =? 0); cbn [negb].
-    + split; [lia|]. split; [lia|]. exists ix. split; [reflexivity | exact Heq].
-    + split; [lia|]. split; [lia|]. exists k. split; [reflexivity | exact Heq].
-  - intros k [index i] (-> & Hk & ix & -> & Heq) Hc. rewrite ltb_of_nat in Hc. apply Nat.ltb_ge in Hc.
-    rewrite Heq. rewrite skipn_all2 by (cbn [length]; lia). reflexivity.
-  - split; [reflexivity|]. split; [lia|]. exists 0%nat. split; reflexivity.
-  - lia.
-Qed.
-
-Lemma add_digit_carry_false w l : Ops.add_digit_carry w l false = l.
-Proof. destruct l; reflexivity. Qed.
-
-(* `out.digits[0]` does not exist for N = 0 (index panic): the impl is only usable for N > 0 *)
-Lemma loops_add_digit w n a d : 0 < w -> (0 < n)%nat -> wf w n a ->
-  forall fuel, (n <= fuel)%nat ->
-  Loops.add_digit w (Z.of_nat n) fuel a d = Done (Ops.U_Add_digit w a d).
-Proof.
-  intros Hw Hn [Ha _] fuel Hf. unfold Loops.add_digit.
-  destruct a as [|x r]; [cbn [length] in Ha; lia|]. cbn [length] in Ha.
-  change 0 with (Z.of_nat 0) at 1 2. rewrite arr_get_nat by (cbn [length]; lia). cbn [bind nth].
-  rewrite arr_set_nat by (cbn [length]; lia). cbn [bind list_set Ops.U_Add_digit].
-  change (DigitGen.carrying_add w) with (carrying_add w).
-  destruct (carrying_add w x d false) as [s c0]. cbn [fst snd].
-  apply while_count_bind with (n := n) (k := 1%nat)
-    (Inv := fun k '(out, carry, i) =>
-       i = Z.of_nat k /\ (1 <= k <= n)%nat /\ length out = n /\ skipn k out = skipn k (x :: r) /\
-       s :: Ops.add_digit_carry w r c0 = firstn k out ++ Ops.add_digit_carry w (skipn k (x :: r)) carry).
-  - intros k [[out carry] i] (-> & Hk & Hlen & Hsk & Heq) Hc.
-    apply andb_true_iff in Hc. destruct Hc as [Hc ->]. rewrite ltb_of_nat in Hc. apply Nat.ltb_lt in Hc.
-    split; [exact Hc|]. rewrite arr_get_nat by lia. cbn [bind].
-    assert (Hd : nth k out 0 = nth k (x :: r) 0).
-    { pose proof (nth_skipn_add out k 0) as H1. pose proof (nth_skipn_add (x :: r) k 0) as H2.
-      rewrite Nat.add_0_r in H1, H2. rewrite <- H1, <- H2, Hsk. reflexivity. }
-    rewrite Hd. rewrite (skipn_nth_cons (x :: r) k) in Heq by (cbn [length]; lia).
-    cbn [Ops.add_digit_carry] in Heq.
-    destruct (u_ovf_add w (nth k (x :: r) 0) 1) as [s1 c1]. cbn [fst snd].
-    rewrite arr_set_nat by lia. cbn [bind].
-    split; [lia|]. split; [lia|]. split; [rewrite list_set_length; exact Hlen|].
-    split; [rewrite skipn_S_list_set; rewrite !skipn_S_tl, Hsk; reflexivity|].
-    rewrite Heq. rewrite firstn_S_list_set by lia. rewrite <- app_assoc. reflexivity.
-  - intros k [[out carry] i] (-> & Hk & Hlen & Hsk & Heq) Hc.
-    rewrite Heq. apply andb_false_iff in Hc. destruct Hc as [Hc | ->].
-    + rewrite ltb_of_nat in Hc. apply Nat.ltb_ge in Hc.
-      rewrite skipn_all2 by (cbn [length]; lia). cbn [Ops.add_digit_carry].
-      rewrite app_nil_r, firstn_all2 by lia. reflexivity.
-    + rewrite add_digit_carry_false, <- Hsk, firstn_skipn. reflexivity.
-  - split; [reflexivity|]. split; [lia|]. split; [cbn [length]; lia|]. split; reflexivity.
-  - lia.
-Qed.
+(* Proofs/LoopsTie.v — umbrella: every loop function GENERATED from /repo/src/buint/*.rs on every run
+   (Generated/Loops.v, by tools/rs2v_loops.py) equals the hand-written model.  The lemmas live in one file per
+   property group, so that a behaviour-changing edit of the Rust source breaks the obligations of the property
+   it belongs to and of no other:
+     LoopsTieC01  overflowing_add, overflowing_sub, Add<Digit>            (Properties/C01.v)
+     LoopsTieC02  long_mul                                                (Properties/C02.v)
+     LoopsTieC05  unchecked_shl_internal, unchecked_shr_pad_internal, rotate_digits_left,
+                  unchecked_rotate_left, swap_bytes, reverse_bits         (Properties/C05.v)
+     LoopsTieC06  bitand, bitor, bitxor, not, eq, cmp, count_ones, count_zeros, leading_zeros,
+                  trailing_zeros, leading_ones, trailing_ones, is_power_of_two, is_zero, is_one
+                                                                          (Properties/C06.v)
+     LoopsTieDiv  div_rem_digit, last_digit_index                         (not yet referenced by a Properties file) *)
+From Bnum.Proofs Require Export LoopsTieC01 LoopsTieC02 LoopsTieC05 LoopsTieC06 LoopsTieDiv.
